@@ -145,7 +145,9 @@ func verifHarness_C13_invalidRejected() {
 }
 
 var verifC13Odd = []string{"/", "//", " /a ", "a", "/a/", "/{v}", "/{v}/", "/a/{v:.+}", "/{a}{b}", "/a.b/{v}.x", `/{v:[a-z]{1,2}}`,
-	"/a[/{v}]", "/[{v}]", "/a/{v:\\d+}[.x]", "/{all}", "/{v:(?:x)(?:y)}", "/a/{v: \\d+ }", "/{ v }"}
+	"/a[/{v}]", "/[{v}]", "/a/{v:\\d+}[.x]", "/{all}", "/{v:(?:x)(?:y)}", "/a/{v: \\d+ }", "/{ v }",
+	// regex metacharacters in literal text and quoting inside a variable regex
+	"/w(x)[/a]", `/{v:\Q[\E(x)}`, "/a+b[/c]", "/(?:a)/{v}", "/a$[/b]", "/a/b.c[.d]"}
 
 // (d) accepted tables can be matched against any method and any path string
 // without the router panicking, under every option combination (including
